@@ -9,7 +9,7 @@ from .c01 import build
 
 PASSES = ['RRG', 'RRGI', 'MUO', 'MDG', 'MEG', 'cleanup', 'cleanup_heavy']
 LEAVES = ['RRG', 'RRGI', 'MUO', 'MDG', 'MEG']
-SHAPES = ['pipe', 'list', 'nested', 'composition-transform', 'pipe-right']
+SHAPES = ['pipe', 'list', 'nested', 'composition-transform', 'pipe-right', 'iterator', 'generator']
 
 
 _USER = {}
@@ -99,6 +99,11 @@ def run_pass(name, c, leaves=None, shape=None, reuse=False):
         return comp.transform(c)
     if shape == 'list':
         return Transformer.apply_transformers(c, ts)
+    # the passes are declared Iterable[Transformer]: one-shot iterables are iterables
+    if shape == 'iterator':
+        return Transformer.apply_transformers(c, iter(ts))
+    if shape == 'generator':
+        return Transformer.apply_transformers(c, (t for t in ts))
     if shape == 'nested':
         if len(ts) <= 1:
             return TransformerComposition(ts).transform(c)
